@@ -493,6 +493,8 @@ type gateCase struct {
 	detail     string
 	base       []byte // wire-bitflip: the valid datagram the bit was flipped in
 	bit        int
+	addrSel    int  // 0 = rotate over the target's addresses, 1 = known peer, 2 = unknown address
+	alwaysLog  bool // goes to the correspondence log regardless of sampling
 }
 
 func gateXorBits(b []byte, start, length int, rng *vrng) {
@@ -617,6 +619,91 @@ func gateCorruptions(c gateCipher, block BlockCrypt, wire []byte, rng *vrng, bud
 		w[p/8] ^= 1 << uint(p%8)
 		add("wire-bitflip", w, c.streamLike && p/8 >= nonceSize, fmt.Sprintf("wire bit %d", p))
 		out[len(out)-1].base, out[len(out)-1].bit = wire, p
+	}
+	return out
+}
+
+// Datagrams that are too short for (or simply fail) the check but, READ AS CLEARTEXT at the
+// offsets the demultiplexer uses behind the gate, look like meaningful frames: FEC data /
+// parity / OOB frames (seqid | type | size | conv | KCP header ...) and raw KCP segments
+// (conv | cmd | frg | wnd | ts | sn ...), carrying the live session's conversation id or a
+// foreign one, sn = 0 (the listener's "reset" trigger) or another value, from a known peer or
+// an unknown address.  Every length from 0 up to header + fecHeaderSizePlus2 + convSize + 4,
+// with the cleartext frame placed at offset 0, behind nonceSize bytes and behind the whole
+// crypto header (whatever a broken gate might strip).  A correct gate never looks at any of
+// this: all of them must be dropped without effect.  Also: the bare decrypted payload and
+// the unencrypted image of captured valid datagrams.
+func gateClearShaped(c gateCipher, block BlockCrypt, liveConv uint32, samples [][]byte, rng *vrng, twoAddrs bool) []gateCase {
+	var out []gateCase
+	hdr, mid := cryptHeaderSize, nonceSize
+	if a, ok := block.(*aeadCrypt); ok {
+		hdr, mid = a.NonceSize()+a.Overhead(), a.NonceSize()
+	}
+	maxLen := hdr + fecHeaderSizePlus2 + convSize + 4
+	types := []struct {
+		name string
+		flag int // -1: raw KCP layout
+	}{{"fec-data", typeData}, {"fec-parity", typeParity}, {"oob", typeOOB}, {"kcp", -1}}
+	sels := []int{1}
+	if twoAddrs {
+		sels = []int{1, 2}
+	}
+	for _, place := range []int{0, mid, hdr} {
+		for n := 0; n <= maxLen; n++ {
+			for _, ty := range types {
+				for _, conv := range []uint32{liveConv, liveConv ^ 0x5a5a0001} {
+					for _, sn := range []uint32{0, 1 + uint32(rng.intn(1000))} {
+						f := rng.bytes(maxLen + 32)
+						if ty.flag >= 0 {
+							binary.LittleEndian.PutUint32(f[0:], uint32(rng.intn(4096)))
+							binary.LittleEndian.PutUint16(f[4:], uint16(ty.flag))
+							sz := n - fecHeaderSize
+							if sz < 2 {
+								sz = 2
+							}
+							binary.LittleEndian.PutUint16(f[6:], uint16(sz))
+							k := f[fecHeaderSizePlus2:]
+							binary.LittleEndian.PutUint32(k[0:], conv)
+							k[4], k[5] = IKCP_CMD_PUSH, 0
+							binary.LittleEndian.PutUint16(k[6:], 32)
+							binary.LittleEndian.PutUint32(k[IKCP_SN_OFFSET:], sn)
+							binary.LittleEndian.PutUint32(k[16:], 0)
+							binary.LittleEndian.PutUint32(k[20:], 0)
+						} else {
+							binary.LittleEndian.PutUint32(f[0:], conv)
+							f[4], f[5] = IKCP_CMD_PUSH, 0
+							binary.LittleEndian.PutUint16(f[6:], 32)
+							binary.LittleEndian.PutUint32(f[IKCP_SN_OFFSET:], sn)
+							binary.LittleEndian.PutUint32(f[16:], 0)
+							binary.LittleEndian.PutUint32(f[20:], 0)
+						}
+						d := append(rng.bytes(place), f[:n]...)
+						short := len(d) < hdr
+						kind := "clear-shaped"
+						if short {
+							kind = "clear-shaped-short"
+						}
+						for _, sel := range sels {
+							out = append(out, gateCase{kind: kind, wire: d, guaranteed: short || c.aead,
+								detail:  fmt.Sprintf("%s conv=%08x sn=%d len=%d at offset %d addrSel=%d", ty.name, conv, sn, n, place, sel),
+								addrSel: sel, alwaysLog: place == 0 || rng.chance(15)})
+						}
+					}
+				}
+			}
+		}
+	}
+	for _, w := range samples {
+		v := gateOracle(block, w)
+		if v.fails {
+			continue
+		}
+		if c.aead {
+			out = append(out, gateCase{kind: "clear-payload", wire: v.dec, guaranteed: true, detail: "bare plaintext of a valid datagram", alwaysLog: true})
+		} else {
+			out = append(out, gateCase{kind: "clear-payload", wire: append([]byte(nil), v.dec[cryptHeaderSize:]...), detail: "bare payload of a valid datagram", alwaysLog: true})
+			out = append(out, gateCase{kind: "clear-image", wire: v.dec, detail: "unencrypted nonce|crc|payload of a valid datagram", alwaysLog: true})
+		}
 	}
 	return out
 }
@@ -1009,9 +1096,11 @@ func TestVerifC06(t *testing.T) {
 					src = tr.toClient
 				}
 				var cases []gateCase
-				for _, d := range sampleOf(src) {
+				samples := sampleOf(src)
+				for _, d := range samples {
 					cases = append(cases, gateCorruptions(c, block, d, rng, budget)...)
 				}
+				cases = append(cases, gateClearShaped(c, block, tr.conv, samples, rng, tg.lst != nil)...)
 				// random datagrams of every length 0..1500 (quick: every third length + the edges)
 				for n := 0; n <= 1500; n++ {
 					if vThorough() || n <= 48 || n >= 1490 || n%3 == int(vSeed()%3) {
@@ -1047,6 +1136,12 @@ func TestVerifC06(t *testing.T) {
 						rep.Monitors["guaranteed-corruption-fails-check"]++
 					}
 					addr := tg.addrs[ci%len(tg.addrs)]
+					switch cs.addrSel {
+					case 1:
+						addr = tg.addrs[0]
+					case 2:
+						addr = tg.addrs[len(tg.addrs)-1]
+					}
 					before := tg.snapshotInto(snapA)
 					b0 := gateCounters()
 					panicked := any(nil)
@@ -1090,8 +1185,10 @@ func TestVerifC06(t *testing.T) {
 					}
 					// correspondence log: a uniform sample of the fed datagrams, plus every
 					// datagram around the header-size boundary
-					if rng.intn(len(cases)) < perTarget || (len(cs.wire) >= 10 && len(cs.wire) <= 30 && rng.chance(10)) {
+					if cs.alwaysLog || rng.intn(len(cases)) < perTarget || (len(cs.wire) >= 10 && len(cs.wire) <= 30 && rng.chance(10)) {
+						force = cs.alwaysLog
 						feedLog(c, block, map[string]string{"session": "S", "listener": "L"}[tg.path], cs.wire, v, b0, b1)
+						force = false
 					}
 					// tie for the premise of c06_wire_level on the real stream-like ciphers
 					if c.streamLike && cs.kind == "wire-bitflip" && cs.guaranteed {
